@@ -250,6 +250,7 @@ func c01One(run *ev.Run, p c01P) {
 	var st *bmc.V2SessionlessTransport
 	var b *refbmc.BMC
 	var cleanup func()
+	var env *Env
 	if p.UDP {
 		u, err := newUDPEnv(cfg)
 		if err != nil {
@@ -260,6 +261,7 @@ func c01One(run *ev.Run, p c01P) {
 	} else {
 		e := NewEnv(cfg, memtr.Window)
 		st, b, cleanup = e.ST, e.BMC, func() {}
+		env = e
 	}
 	defer cleanup()
 	if csServer != nil {
@@ -329,6 +331,29 @@ func c01One(run *ev.Run, p c01P) {
 	}
 	for i := 0; i < p.Cmds; i++ {
 		cmd := &RawCmd{Op: ipmi.Operation{Function: ipmi.NetworkFunctionAppReq, Command: ipmi.CommandNumber(0x40 + i)}, Req: rbytes(r, r.Intn(30))}
+		damaged := 0
+		if env != nil && i%3 == 1 && !noneSuite {
+			// the network damages one bit of this command's first reply (in the AuthCode, the
+			// payload or the header): the library discards it and asks again, and that
+			// retransmission must again pass the BMC's checks
+			where := r.Intn(3)
+			env.Filter = func(n int, req, reply []byte) ([]byte, error) {
+				if damaged > 0 || len(reply) < 20 {
+					return reply, nil
+				}
+				damaged++
+				m := append([]byte(nil), reply...)
+				switch where {
+				case 0:
+					m[len(m)-1-r.Intn(8)] ^= 1 << uint(r.Intn(8))
+				case 1:
+					m[16+r.Intn(len(m)-16)] ^= 1 << uint(r.Intn(8))
+				default:
+					m[6+r.Intn(10)] ^= 1 << uint(r.Intn(8))
+				}
+				return m, nil
+			}
+		}
 		var code ipmi.CompletionCode
 		pv, stack := safe(func() { code, err = sess.SendCommand(ctx, cmd) })
 		if pv != nil {
@@ -339,6 +364,16 @@ func c01One(run *ev.Run, p c01P) {
 			key := "C01:command-rejected:" + p.Suite.String()
 			run.Violation(key, fmt.Sprintf("command %d on a fresh session failed: code=%v err=%v; BMC problems: %v", i, code, err, problems(b)), cs, nil)
 			return
+		}
+		if env != nil {
+			env.Filter = nil
+		}
+		if damaged > 0 {
+			run.Event("replies-damaged-in-transit", damaged)
+			// the BMC handled the command twice; the caller gets the second answer
+			if len(sent) == i+2 {
+				sent = append(sent[:i], sent[i+1:]...)
+			}
 		}
 		if len(sent) != i+1 {
 			run.Violation("C01:command-not-seen", fmt.Sprintf("BMC handled %d commands after %d calls", len(sent), i+1), cs, nil)
